@@ -57,7 +57,7 @@ def run(ctx):
         cases = _cells_to_cases(ctx, list(cells), r)
         for c in cases:
             c["id"] += f"-{rep}"
-        _notes._judge(ctx, cases, "C03", "Sustain.tla decision-table cells")
+        _notes._judge(ctx, cases, "C03", "Sustain.tla decision-table cells", max_skip_ratio=0.0)
     # empty track, single-note tracks, longest sustain not on the last note
     special = [
         {"id": "C03-empty", "res": 192, "body": []},
@@ -70,7 +70,7 @@ def run(ctx):
     _notes._judge(ctx, special, "C03", "special tracks")
     # TRACE: seeded wide-domain tracks with many sustains over multi-segment tempo maps
     cases = _notes.seeded_tracks(ctx, "C03", ctx.pick(400, 6000), sustain_p=0.7)
-    _notes._judge(ctx, cases, "C03", "seeded tracks")
+    _notes._judge(ctx, cases, "C03", "seeded tracks", max_skip_ratio=0.01)
     ctx.assumptions += [
         "domain: well-formed section; an open note's own line precedes its flag lines (the library documents other orders as undefined)",
         "exactness of the end time against the tempo map is decided by C01; here end time must equal the un-hinted query at the end tick",
